@@ -32,6 +32,7 @@ const (
 
 // Obligation is one verification condition: under PC (and the axioms), Goal must hold.
 type Obligation struct {
+	Retried bool // left undecided in the parallel round and retried alone
 	Name    string
 	Kind    OblKind
 	Harness string
